@@ -193,6 +193,7 @@ type trState struct {
 	inModel  map[int]bool           // the actor's current (sub)call exists in the model
 	shared   bool
 	nProbes  int
+	critDone map[int]int // actor → Seq+1 of the next.oplog record whose section was already issued
 }
 
 func (s *trState) diverge(a int, why string) {
@@ -212,8 +213,9 @@ func (s *trState) markBeginOrder() {
 	if !s.shared {
 		return
 	}
-	for _, a := range s.t.dig.Actors {
-		if a.Pc == "bSessLock" || a.Pc == "bSessRead" {
+	for i, a := range s.t.dig.Actors {
+		// the signature of the old order: an actor at the session read that HOLDS e.mutex
+		if (a.Pc == "bSessLock" || a.Pc == "bSessRead") && s.t.dig.Mutex != nil && *s.t.dig.Mutex == i {
 			s.tr.BeginOrd = true
 		}
 	}
@@ -375,11 +377,21 @@ func (s *trState) settle(a int) bool {
 	progressed := false
 	for iter := 0; iter < 24 && s.tr.Diverged == "" && s.t.err == nil; iter++ {
 		pc := s.t.pc(a)
-		if pc == "idle" {
-			break
-		}
 		goal := s.nextRec(a, s.pos)
 		if goal == nil {
+			break
+		}
+		if pc == "idle" {
+			// a silent e.mutex section (stream.oplog()) lies between the actor's release and the hook
+			// that reports it: issue it as early as the model allows
+			if goal.Kind == "event" && hookMap[goal.Point].Implied == "crit:read" && s.critDone[a] != goal.Seq+1 {
+				if !s.issue(a, impliedCall("crit:read", s.curCall[a])) {
+					break
+				}
+				s.critDone[a] = goal.Seq + 1
+				progressed = true
+				continue
+			}
 			break
 		}
 		var target []string
@@ -479,7 +491,7 @@ func translate(p *model.Proc, o *sched.Outcome) *translation {
 	tr := &translation{N: o.N, Scripts: make([][]string, o.N)}
 	s := &trState{t: newTracker(p, o.N), tr: tr, trace: o.Trace, byActor: map[int][]int{}, pending: map[int]bool{},
 		ctxDead: map[int]bool{}, store: map[int]string{}, curCall: map[int]sched.CallInfo{}, inModel: map[int]bool{},
-		shared: o.Sc.Shared}
+		shared: o.Sc.Shared, critDone: map[int]int{}}
 	for i, r := range o.Trace {
 		if r.Actor > 0 && (r.Kind == "event" || r.Kind == "ret" || r.Kind == "call") {
 			s.byActor[r.Actor] = append(s.byActor[r.Actor], i)
@@ -534,6 +546,14 @@ func translate(p *model.Proc, o *sched.Outcome) *translation {
 		case "event":
 			rule, ok := hookMap[r.Point]
 			if !ok || rule.Target == nil {
+				break
+			}
+			if r.Point == "next.oplog" && s.critDone[a] == r.Seq+1 {
+				// the section was placed eagerly; it must be over by now
+				if s.t.pc(a) != "idle" && !s.advanceCrit(a) {
+					s.diverge(a, "stream.oplog() section not enabled")
+				}
+				s.settleAll(0)
 				break
 			}
 			if s.t.pc(a) == "idle" {
